@@ -17,6 +17,8 @@ static inline void ExpiringCache_remove_stub(ExpiringCache *c, uint64_t key) { i
  * that (WITNESS_BOUND). Carrying the bound `min_ttl <= G_wttl` through the loops directly (instead of a chain
  * min_12 <= min_11 <= ... <= ttl) is what makes the proof cheap (measured: chain 150 s for one clause, direct form 10 s). */
 unsigned GSEC; size_t GI; bool G_wv; uint32_t G_wttl;
+/* ghost names for two shapes of a result: no record at all / exactly one answer record and nothing else (bound in WITNESS_BOUND) */
+bool G_empty, G_single;
 #define NSEC 12
 /* a record vector of a parsed message: each section count is a 16-bit field, the typed vectors collect from three sections */
 #define RVEC_MAX ((size_t)3 * 65535)
